@@ -67,20 +67,21 @@ PROPS = {
               "the fingerprint is a deterministic function of the sorted keyed pairs (no hash/id/set-order/environment dependence); "
               "nothing consulted is unkeyed; dotted keys are only looked up through dotted accessors.",
               "restrict-and-re-evaluate equality on concrete dictionaries; F13"),
-    "C04": _p(["R-MS", "R-FV", "R-AB", "R-MP", "R-KN", "R-PU", "R-CC"],
+    "C04": _p(["R-MS", "R-FV", "R-AB", "R-MP", "R-KN", "R-PU", "R-CC", "R-KC"],
               "Decides: the MISSING sentinel and looked-up values never flow into a truthiness test (presence is decided by "
               "KeyError/dotted_key_exists only); the default is consulted only on the key-absent branch behind `is not MISSING`; "
               "every returning path of Option.evaluate passes the returned value through the type request and the domain check, and "
               "a rejecting domain always raises; KeyNotFoundError names key and source; Option.set builds a fresh dictionary and "
               "mixes it over the input; re-keying an Option into a namespace carries every field.",
               "the values returned for particular dictionaries; list-index and prefix-key semantics inside confectioner",
-              filters={"R-CC": ["Option(", "Namespace(", "_Auto("], "R-PU": ["labrea.option", "labrea.template"]}),
-    "C05": _p(["R-SO", "R-OP", "R-SL", "R-EO"],
+              filters={"R-CC": ["Option(", "Namespace(", "_Auto("], "R-PU": ["labrea.option", "labrea.template"], "R-KC": ["labrea.option.Option:"]}),
+    "C05": _p(["R-SO", "R-OP", "R-SL", "R-EO", "R-MX", "R-CD"],
               "Decides only the selection/order skeleton: switch indexes the table by the dispatch value, default exactly on dispatch "
               "failure or miss, SwitchError without default; case-when returns the result paired with the first condition that holds; "
               "coalesce returns at the first member that validates and evaluates; collections and the Map product iterate in stored "
               "order from one mapping; Apply/Bind/FunctionApplication apply the function to the evaluated parts.",
-              "value equality with a reference interpreter for arbitrary expression trees (most of the property)"),
+              "value equality with a reference interpreter for arbitrary expression trees (most of the property)",
+              filters={"R-MX": ["Map._iter"], "R-CD": ["Switch", "Coalesce"]}),
     "C06": _p(["R-CL", "R-SL", "R-AB", "R-EO", "R-EV"],
               "Decides: no evaluation op is reachable from construction/decoration/registration code (whole-program reachability "
               "over resolved callees); unselected switch/case/coalesce branches never receive an op; the default is touched only when "
@@ -113,11 +114,12 @@ PROPS = {
               "unselected branches are not validated.",
               "agreement for a particular dictionary when it hinges on values",
               filters={"R-CP": ["validate"]}),
-    "C11": _p(["R-XA", "R-EG", "R-OA", "R-EV"],
+    "C11": _p(["R-XA", "R-EG", "R-OA", "R-EV", "R-TK"],
               "Decides: every child keyed or validated is explained, path by path for equal selections; every evaluate/validate "
               "reached from an explain method lies inside a try that catches EvaluationError and raises "
               "InsufficientInformationError from it or falls back statically.",
-              "the iterative fill-until-valid behaviour on concrete dictionaries"),
+              "the iterative fill-until-valid behaviour on concrete dictionaries",
+              filters={"R-TK": ["explain"]}),
     "C12": _p(["R-EH", "R-CH", "R-CD", "R-KN", "R-CP", "R-MC", "R-WR"],
               "Decides: the default evaluate handler wraps every exception into EvaluationError(source = this object) chained with "
               "`from`, re-raising its own; all raises inside handlers are chained; only documented fall-through points catch "
@@ -146,7 +148,7 @@ PROPS = {
               "state of shared runtime objects is per thread; cache entries addressed by fingerprint in all three operations.",
               "behaviour under interleavings — no schedule is explored (most of the property)",
               filters={"R-MC": ["key-is-fingerprint"]}),
-    "C16": _p(["R-VP", "R-SH", "R-DH", "R-L1", "R-DC"],
+    "C16": _p(["R-VP", "R-SH", "R-DH", "R-L1", "R-DC", "R-RQ"],
               "Decides: no data flow from a switch, an effect result or a log result into any returned value; the three cache "
               "handlers test both switch spellings first and delegate to disabled twins that touch no backend; the effects switch "
               "selects between two terms containing the same calculation; exactly one log request per Logged.evaluate path, Logged "
